@@ -88,6 +88,12 @@ func ruleR25(p *Prog) []Ob {
 					switch calleeName(c.Common()) {
 					case "io.Copy", "io.CopyN", "io.CopyBuffer":
 						copies = append(copies, c)
+					default:
+						// a copy loop of the module's own: f(io.Writer, io.Reader, ...)
+						if g := c.Common().StaticCallee(); g != nil && inModule(g) && g.Signature.Params().Len() >= 2 &&
+							typeIs(g.Signature.Params().At(0).Type(), "io", "Writer") && typeIs(g.Signature.Params().At(1).Type(), "io", "Reader") {
+							copies = append(copies, c)
+						}
 					}
 				}
 			}
